@@ -22,7 +22,7 @@ type gor struct {
 
 var (
 	hdrRe   = regexp.MustCompile(`^goroutine (\d+) \[([^\],]+)(?:, [^\]]*)?\]:`)
-	underRe = regexp.MustCompile(`^github\.com/smart-core-os/sc-golang/(pkg/resource|internal/minibus|pkg/trait/\w+)\.`)
+	underRe = regexp.MustCompile(`^github\.com/smart-core-os/sc-golang/(pkg/resource|internal/minibus|pkg/trait/\w+|pkg/group|pkg/wrap)\.`)
 )
 
 func stackDump() string {
